@@ -361,7 +361,7 @@ type VsFn = fn(&[u8], &Item, usize) -> Result<bool, vcore::Fail>;
 macro_rules! vs_row { ($e:ident) => { typed_vs_item::<$e> as VsFn } }
 fn vs_table() -> &'static Vec<VsFn> {
     static T: std::sync::OnceLock<Vec<VsFn>> = std::sync::OnceLock::new();
-    T.get_or_init(|| crate::for_each_entry!(vs_row))
+    T.get_or_init(|| crate::for_each_core_entry!(vs_row))
 }
 
 /// A value of one type, re-framed, offered to every registry type ("type confusion").
@@ -436,7 +436,7 @@ fn typed(g: &mut Gen, st: &mut Stats) -> CaseResult {
 
 fn type_confusion(g: &mut Gen, st: &mut Stats) -> CaseResult {
     static T: std::sync::OnceLock<Vec<RandomFn>> = std::sync::OnceLock::new();
-    let t = T.get_or_init(|| crate::for_each_entry!(conf_row));
+    let t = T.get_or_init(|| crate::for_each_core_entry!(conf_row));
     t[g.below(t.len())](g, st)
 }
 
